@@ -87,7 +87,7 @@ def main():
                 if k in old:
                     meta[k] = old[k]
             meta["tests_note"] = "test-suite result carried over from the earlier confirmation run of this seed"
-        meta["checks"] = {}
+        meta["checks"] = dict(old.get("checks", {})) if skip_tests else {}
         for c in checks:
             t0 = time.time()
             rc, out = sh(f"{PY} -m vf check {c} --tier {tier}", cwd="/verif", env={"VERIF_REPO": scratch})
